@@ -72,7 +72,7 @@ BUILTIN = {'void', 'char', 'signed char', 'unsigned char', 'short', 'unsigned sh
            '_Bool', 'unsigned', '__int128', 'unsigned __int128'}
 
 
-STD_TYPEDEFS = {'time_t': 'long', 'std::time_t': 'long', 'ssize_t': 'long', 'off_t': 'long', 'std::ptrdiff_t': 'long',
+STD_TYPEDEFS = {'std::nullptr_t': 'void *', 'nullptr_t': 'void *', 'time_t': 'long', 'std::time_t': 'long', 'ssize_t': 'long', 'off_t': 'long', 'std::ptrdiff_t': 'long',
                 'FIX8::fp_type': 'double', 'fp_type': 'double', 'std::streamsize': 'long'}
 
 
@@ -82,6 +82,7 @@ class Emitter:
     def __init__(self, spec):
         self.spec = spec
         self.type_map = spec.get('type_map', [])       # list of (regex, ctype)
+        self.aliases = spec.get('type_alias', [])      # list of (regex, C++ type text): member typedefs of template instantiations that clang leaves sugared
         self.lazy = spec.get('lazy_structs', [])        # list of regex of class names allowed as lazy structs
         self.calls = spec.get('calls', {})
         self.constants = spec.get('constants', {})      # short name -> C expression/text
@@ -96,11 +97,27 @@ class Emitter:
     # ------------------------------------------------------------------ types
     def tstr(self, t):
         if isinstance(t, dict):
-            return t.get('desugaredQualType') or t['qualType']
+            t = t.get('desugaredQualType') or t['qualType']
+        for rx, rep in self.aliases:
+            t = re.sub(rx, rep, t)
         return t
 
     def strip_cv(self, s):
-        s = re.sub(r'\b(const|volatile)\b', '', s)
+        # cv-qualifiers are dropped at the top level only (template arguments keep theirs: <const char *, X> names a different class)
+        out, depth, i = '', 0, 0
+        for m in re.finditer(r'[<>]|\b(?:const|volatile)\b', s):
+            out += s[i:m.start()]
+            i = m.end()
+            tok = m.group(0)
+            if tok == '<':
+                depth += 1
+                out += tok
+            elif tok == '>':
+                depth -= 1
+                out += tok
+            elif depth > 0:
+                out += tok
+        s = out + s[i:]
         s = re.sub(r'\b(struct|class|enum)\s+', '', s)
         return re.sub(r'\s+', ' ', s).strip()
 
@@ -140,6 +157,8 @@ class Emitter:
 
     def _decl(self, s, name):
         s = s.strip()
+        for rx, rep in self.aliases:
+            s = re.sub(rx, rep, s)
         # array suffix
         m = re.match(r'^(.*?)\s*((\[\d*\])+)$', s)
         if m and not m.group(1).rstrip().endswith(')'):
@@ -254,8 +273,59 @@ class Emitter:
         b = body[0]
         if b['kind'] == 'CXXTryStmt':
             raise Unsupported('function-try-block')
-        for s in self.kids(b):
+        sel = fspec.get('select_stmts')
+        if fspec.get('select_node'):
+            # partial extraction of a nested block: the first statement (pre-order) that satisfies the spec's predicate is the whole body
+            def find(x):
+                if fspec['select_node'](x):
+                    return x
+                for c in self.kids(x):
+                    r = find(c)
+                    if r is not None:
+                        return r
+                return None
+            hit = find(b)
+            if hit is None:
+                raise Unsupported('%s: select_node matched nothing' % cname)
+            self.rules['nested_block_selected(%s)' % cname] += 1
+            b = dict(kind='CompoundStmt', inner=[hit])
+            sel = None
+        if fspec.get('drop_stmts'):
+            # deny-list form of partial extraction: every top-level statement is verified except the ones the spec's predicates name
+            # (each predicate must match exactly one statement), so a statement added to the function lands in the verified text
+            dropped = []
+            for pred in fspec['drop_stmts']:
+                hits = [i for i, st in enumerate(self.kids(b)) if pred(st)]
+                if len(hits) != 1:
+                    raise Unsupported('%s: a drop_stmts predicate matched %d top-level statements' % (cname, len(hits)))
+                dropped += hits
+            sel = [i for i in range(len(self.kids(b))) if i not in dropped]
+        if sel is not None and any(callable(x) for x in sel):
+            # predicates instead of ordinals: robust against statements added before the block of interest
+            idx = []
+            for pred in sel:
+                hits = [i for i, st in enumerate(self.kids(b)) if (pred(st) if callable(pred) else i == pred)]
+                if len(hits) != 1:
+                    raise Unsupported('%s: a select_stmts predicate matched %d top-level statements' % (cname, len(hits)))
+                idx += hits
+            sel = idx
+        for i, s in enumerate(self.kids(b)):
+            if sel is not None and i not in sel:
+                # partial extraction: only the selected top-level statements of the body are verified; the rest is listed as dropped
+                self.rules['body_statement_not_selected(%s)' % cname] += 1
+                continue
             out += ['  ' + l for l in self.stmt(s)]
+        if sel is not None and max(sel) >= len(self.kids(b)):
+            raise Unsupported('%s: select_stmts names statement %d but the body has %d' % (cname, max(sel), len(self.kids(b))))
+        if '__unwind' in self.labels_needed:
+            # exception lowering: the landing pad of a function that lets an exception escape (callers test __exc)
+            self.rules['exception_unwind_epilogue'] += 1
+            if rdecl.strip() == 'void':
+                out = out + ['  return;', '  __unwind: return;']
+            elif rdecl.startswith('struct ') and not rdecl.rstrip().endswith('*'):
+                out = out + ['  __unwind: { %s __dummy = {0}; return __dummy; }' % rdecl]
+            else:
+                out = out + ['  __unwind: return (%s)0;' % rdecl]
         out.append('}')
         return '\n'.join(out)
 
@@ -263,6 +333,10 @@ class Emitter:
         out = []
         for c in fd.get('inner', []):
             if isinstance(c, dict) and c.get('kind') == 'CXXCtorInitializer':
+                seli = self.f.get('select_inits')
+                if seli is not None and 'anyInit' in c and c['anyInit']['name'] not in seli:
+                    self.rules['ctor_initializer_not_selected(%s)' % self.f['cname']] += 1
+                    continue
                 if 'anyInit' in c:
                     fld = c['anyInit']
                     self.pre = []
@@ -834,10 +908,26 @@ class Emitter:
     def e_ConditionalOperator(self, n):
         c, a, b = self.kids(n)
         ec = self.expr(c)
+        saved_tmp = self.tmp_no
         self.nohoist += 1
-        ea, eb = self.expr(a), self.expr(b)
-        self.nohoist -= 1
-        return '(%s ? %s : %s)' % (ec, ea, eb)
+        try:
+            ea, eb = self.expr(a), self.expr(b)
+            return '(%s ? %s : %s)' % (ec, ea, eb)
+        except Unsupported as e:
+            if 'hoisting is not possible' not in str(e) or self.nohoist > 1 or self.pre is None or n.get('valueCategory') != 'prvalue':
+                raise
+        finally:
+            self.nohoist -= 1
+        # a branch needs a temporary (e.g. a prvalue bound to a reference parameter): lower `c ? a : b` to an if/else on a result temporary,
+        # so the branch's temporaries are still evaluated only when the branch is taken
+        self.tmp_no = saved_tmp
+        self.rules['conditional_to_if_else'] += 1
+        res = self.newtmp()
+        prea, ea = self.with_pre(lambda: self.expr(a))
+        preb, eb = self.with_pre(lambda: self.expr(b))
+        self.hoist(self.decl(n['type'], res) + ';',
+                   'if (%s) { %s %s = %s; } else { %s %s = %s; }' % (ec, ' '.join(prea), res, ea, ' '.join(preb), res, eb))
+        return res
 
     PASS_CASTS = ('LValueToRValue', 'NoOp', 'FunctionToPointerDecay', 'ArrayToPointerDecay', 'ConstructorConversion',
                   'UserDefinedConversion', 'BuiltinFnToFnPtr')
@@ -854,6 +944,11 @@ class Emitter:
             if ck == 'NullToPointer':
                 return '((void*)0)'
             return self.cast(n['type'], self.expr(inner))
+        if ck == 'LValueBitCast':
+            # reinterpret_cast<T&>(lvalue): the same object viewed through another type
+            self.rules['lvalue_bitcast'] += 1
+            e = self.expr(inner)
+            return '(*(%s)(&%s))' % (self._decl(self.tstr(n['type']) + ' *', ''), e)
         if ck == 'ToVoid':
             return '((void)%s)' % self.expr(inner, stmt) if inner['kind'] in ('CallExpr', 'CXXMemberCallExpr', 'CXXOperatorCallExpr') else '((void)%s)' % self.expr(inner)
         if ck in ('DerivedToBase', 'UncheckedDerivedToBase'):
@@ -864,6 +959,14 @@ class Emitter:
             if src == dst:
                 return e
             conv = self.spec.get('base_cast', {}).get((src, dst))
+            bases = self.spec.get('bases', {})
+            scls = self.class_of(inner['type'])
+            if conv is None and bases.get(scls) and self._decl(bases[scls], '') == dst and src.startswith('struct '):
+                # single inheritance listed in the spec: the base subobject is the first member `__base` of the derived struct
+                self.rules['base_subobject_member'] += 1
+                self.structs[src[7:]].setdefault('__base', dst + ' __base')
+                self.structs[src[7:]].move_to_end('__base', last=False)
+                conv = '(&(%s)->__base)'
             if conv is None:
                 raise Unsupported('derived-to-base cast %s -> %s (alias the classes in type_map or give base_cast)' % (src, dst))
             isptr = self.tstr(inner['type']).strip().endswith('*')
@@ -942,7 +1045,7 @@ class Emitter:
         gb = self.ghost('call:%s#%d.before' % (cname, ord_))
         ga = self.ghost('call:%s#%d.after' % (cname, ord_)) or self.ghost('call:%s.after' % cname)
         thr = self.spec.get('may_throw', {}).get(cname)
-        rett = fn_param_types(sig)[0] if sig else 'void'
+        rett = self.tstr(fn_param_types(sig)[0]) if sig else 'void'
         isref = rett.strip().endswith('&')
         if gb or ga or thr:
             # needs statement context
@@ -1002,6 +1105,9 @@ class Emitter:
         if h:
             return h(self, n, args, stmt)
         ent = self.calls.get(cls + '::' + nm)
+        if callable(ent):
+            # overloaded / templated members: the spec chooses by the argument types
+            ent = ent(self, n, args)
         if ent is None:
             raise Unsupported('unmodelled call: key=%r (member; give calls[key] and member_sigs[key] if it has reference params)' % (cls + '::' + nm))
         if isinstance(ent, dict):
@@ -1055,7 +1161,16 @@ class Emitter:
         cls = self.class_of(ce['type'])
         args = self.kids(ce)
         ctype = ce.get('ctorType', {}).get('qualType', 'void ()')
-        key = cls + '::' + cls.split('::')[-1].split('<')[0]
+        # constructor name = last top-level component of the class name without its template arguments
+        depth, last = 0, 0
+        for i, ch in enumerate(cls):
+            if ch == '<':
+                depth += 1
+            elif ch == '>':
+                depth -= 1
+            elif ch == ':' and depth == 0 and cls[i - 1:i] == ':':
+                last = i + 1
+        key = cls + '::' + cls[last:].split('<')[0]
         h = self.spec.get('ctor_handlers', {}).get(cls)
         if h:
             return h(self, ce, target, args)
@@ -1070,6 +1185,13 @@ class Emitter:
                 self.rules['pod_copy'] += 1
                 return ['%s = %s;' % (target, self.expr(args[0]))]
         ent = self.calls.get(key + '|' + ctype) or self.calls.get(key)
+        if ent is None and re.match(r'(std::)?pair<', cls) and len(args) == 1 and len(pts) == 1 and re.match(r'(const )?(std::)?pair<', pts[0].strip()):
+            # std::pair converting copy/move constructor: memberwise
+            self.rules['pair_converting_ctor'] += 1
+            a = self.unwrap(args[0])
+            tmp = self.newtmp()
+            self.hoist('%s = %s;' % (self.decl(a['type'], tmp), self.expr(a)))
+            return ['%s.first = %s.first;' % (target, tmp), '%s.second = %s.second;' % (target, tmp)]
         if ent is None:
             raise Unsupported('unmodelled constructor: key=%r sig=%r' % (key, ctype))
         argl = self.args_for(ctype, args, ent)
@@ -1088,11 +1210,46 @@ class Emitter:
 
     e_CXXTemporaryObjectExpr = e_CXXConstructExpr
 
+    def e_CXXNewExpr(self, n):
+        # new T[n] / new T for scalar, pointer and POD element types: storage only (no constructors to run)
+        t = self.tstr(n['type']).strip()
+        assert t.endswith('*')
+        et = t[:-1].strip()
+        ed = self._decl(et, '')
+        if ed.startswith('struct ') and not ed.rstrip().endswith('*') and not any(re.fullmatch(rx, self.strip_cv(et)) for rx in self.spec.get('pod', [])):
+            raise Unsupported('new of non-POD class type ' + et)
+        ks = self.kids(n)
+        self.rules['new_to_malloc'] += 1
+        if n.get('isArray'):
+            cnt = self.expr(ks[0])
+            return '((%s)__verif_new_array(%s, sizeof(%s)))' % (self._decl(t, ''), cnt, ed)
+        if ks and ks[-1].get('kind') not in ('CXXConstructExpr',):
+            raise Unsupported('new with initialiser')
+        return '((%s)__verif_new_array(1, sizeof(%s)))' % (self._decl(t, ''), ed)
+
+    def e_CXXDeleteExpr(self, n):
+        self.rules['delete_to_free'] += 1
+        return '__verif_delete(%s)' % self.expr(self.kids(n)[0])
+
     def e_CXXThrowExpr(self, n):
         h = self.spec.get('throw_handler')
-        if not h:
+        if h:
+            return h(self, n)
+        if not self.spec.get('exceptions'):
             raise Unsupported('throw (no exception lowering configured)')
-        return h(self, n)
+        # generic lowering: exception object reduced to its kind; `throw X(args)` -> { __exc = EXC_X; goto <handler or __unwind>; }
+        ks = self.kids(n)
+        if not ks:
+            raise Unsupported('rethrow')
+        cls = self.class_of(self.unwrap(ks[0])['type'])
+        kind = 'EXC_' + ident(re.sub(r'<.*>', '', cls))
+        self.exc_kinds = getattr(self, 'exc_kinds', OrderedDict())
+        self.exc_kinds.setdefault(kind, cls)
+        self.rules['throw_to_goto'] += 1
+        # argument side effects are not modelled: refuse them
+        for a in self.kids(self.unwrap(ks[0])):
+            self.check_droppable(a)
+        return '{ __exc = %s; goto %s; }' % (kind, self.exc_target())
 
     # ------------------------------------------------------------------ struct output
     def struct_defs(self):
